@@ -363,7 +363,13 @@ func (n *Tree[V]) findNode(path string, captures []string, matcher LookupMatcher
 
 			if pathLen >= childPathLen && child.path == path[:childPathLen] {
 				nextPath := path[childPathLen:]
-				found, idx, captures, backtrack = child.findNode(nextPath, captures, matcher)
+
+				var tmp []string
+
+				found, idx, tmp, backtrack = child.findNode(nextPath, captures, matcher)
+				if found != nil {
+					captures = tmp
+				}
 			}
 
 			break
